@@ -257,6 +257,9 @@ func TwoThirds(total int64) int64 {
 }
 
 func (valSet *ValidatorSet) VerifyCommit(chainID string, blockID BlockID, height int64, commit *Commit) error {
+	if commit == nil {
+		return fmt.Errorf("Invalid commit -- nil commit")
+	}
 	if valSet.Size() != len(commit.Precommits) {
 		return fmt.Errorf("Invalid commit -- wrong set size: %v vs %v", valSet.Size(), len(commit.Precommits))
 	}
